@@ -123,6 +123,8 @@ def make_variant(data, toks, style=None):
         if i + 1 < len(toks):
             nxt = toks[i + 1][1]
             need = needs_separator(tx, nxt)
+            if need and ty in ("INT", "FLOAT") and not nxt[0].isdigit():
+                need = False  # 18and / 2.5or / 3in: a number ends where the digits end, the word after it is a token of its own
             if style == "min":
                 sep, t = (" " if need else ""), []
             elif style == "lines":
